@@ -152,6 +152,22 @@ def programs(tier: str):
                 if tier == "quick" and cancels and (i.get("disp") or h.get("disp")) and i["ending"] != "return":
                     continue
                 yield {"block": dict(h, child=dict(i)), "outer": False, "cancels": cancels}
+    # LONG chains: 4..7 (9) blocks nested in each other (an implementation that layers / compacts
+    # the scope state, the metrics scopes or the task groups beyond a few levels)
+    for depth in (4, 5, 7) if tier == "quick" else (4, 5, 6, 7, 9):
+        for pattern in ("u", "s", "a", "usa", "sau", "aus"):
+            for supplies in (("A",), ("A", "R"), ("A", "", "R")):
+                for ending in ("return", "raise"):
+                    for cancels in (0, 1) if (depth == 4 and pattern in ("a", "usa")) else (0,):
+                        blk = None
+                        for lvl in reversed(range(depth)):
+                            kind = {"u": "updated", "s": "sscope", "a": "ascope"}[pattern[lvl % len(pattern)]]
+                            sup = supplies[lvl % len(supplies)]
+                            b = {"kind": kind, "supply": [sup] if sup else [], "pause": lvl in (0, depth - 1), "ending": ending}
+                            if blk is not None:
+                                b["child"] = blk
+                            blk = b
+                        yield {"block": blk, "outer": False, "cancels": cancels, "chain": depth}
     if tier == "thorough":
         basic = [
             {"kind": k, "supply": ["A"], "pause": True, "ending": e}
